@@ -305,7 +305,9 @@ cfg_if! {
                         }
                     },
                     Ok(contents) => {
-                        crate::verif_hooks::zip_extract(&env, dir, contents).expect("Zip extraction failed");
+                        if let Err(e) = crate::verif_hooks::zip_extract(&env, dir, contents) {
+                            bail!("Zip extraction of {} failed: {}", dir.join(zip_file_name).display(), e);
+                        }
                         Ok(true)
                     },
                 };
